@@ -1,5 +1,5 @@
 From Coq Require Import List NArith Bool.
-From STH Require Import Lex Index Index2 Index3 Store Translate Check Crash Iterate.
+From STH Require Import Lex Index Index2 Index3 Store Translate Check Crash Iterate Budget Budget2.
 Import ListNotations.
 Open Scope N_scope.
 
@@ -9,8 +9,12 @@ Open Scope N_scope.
    observation on which model and implementation differ. *)
 Inductive zop := ZX (x : xop) | ZTranslate (order0 : list N) (newbits : N) (order : list N)
                | ZCrash (done : list N) (gets : list (bytes * out))
-               | ZIter (items : list (bytes * bytes)).
-Notation YX := ZX. Notation YTranslate := ZTranslate. Notation YCrash := ZCrash. Notation YIter := ZIter.
+               | ZIter (items : list (bytes * bytes))
+               | ZIgcB (scanFree : bool) (b : budget) (expect : gres)     (* index GC cycle with a poll budget (None: unlimited, but honouring a pending resume cursor) *)
+               | ZPgcL (lowUse : N) (b : budget) (expect : gres).         (* primary GC cycle whose budget starts after the freelist has been applied *)
+Definition gres_eqb (a b : gres) : bool :=
+  match a, b with GOk, GOk | GDeadline, GDeadline | GErr, GErr => true | _, _ => false end.
+Notation YX := ZX. Notation YIgcB := ZIgcB. Notation YPgcL := ZPgcL. Notation YTranslate := ZTranslate. Notation YCrash := ZCrash. Notation YIter := ZIter.
 Fixpoint kvs_eqb (a b : list (bytes * bytes)) : bool :=
   match a, b with
   | [], [] => true
@@ -27,6 +31,12 @@ Fixpoint replay5 (s : store) (l : list (zop * xout)) (i : N) : option N :=
   | (ZIter items, _) :: l' =>
       (* whole-store iteration (the flush it starts with is a separate OFlush observation): same bindings in the same order *)
       if kvs_eqb (iterate s) items then replay5 s l' (i + 1) else Some i
+  | (ZIgcB sf b g, _) :: l' =>
+      let (ix', g') := index_gc_b sf b (sidx s) in
+      if gres_eqb g g' then replay5 (mk s ix' (spri s) (sfree_pool s) (sfree_file s)) l' (i + 1) else Some i
+  | (ZPgcL lu b g, _) :: l' =>
+      let (s', g') := primary_gc_l lu b s in
+      if gres_eqb g g' then replay5 s' l' (i + 1) else Some i
   | (ZTranslate o0 nb o1, XR ROk) :: l' =>
       match reopen_translate s o0 nb o1 with Some s' => replay5 s' l' (i + 1) | None => Some i end
   | (ZTranslate _ _ _, _) :: _ => Some i
